@@ -257,6 +257,62 @@ mod n {
         let _ = std::fs::remove_dir_all(&broken);
     }
 
+    // ---- C01 at the library level: what the tool prints (as_json of collect_hulc_data's model, `extra` list included)
+    // loads back as that model, for every project obtained from a shipped one by rewriting one number ------------------
+    #[test]
+    fn n_c01_edited_projects() {
+        let dirs = project_dirs();
+        let projects: Vec<(String, String)> = dirs.iter().filter_map(|d| Some((d.file_name()?.to_string_lossy().to_string(), std::fs::read_to_string(ctehexml_of(d)?).ok()?))).collect();
+        let thorough = std::env::var("VERIF_TIER").map(|t| t == "thorough").unwrap_or(false);
+        let seed: usize = std::env::var("VERIF_SEED").ok().and_then(|s| s.parse().ok()).unwrap_or(0);
+        let step = if thorough { 2 } else { 16 };
+        let mut slice: Vec<(usize, usize)> = vec![];
+        for (fi, (_, text)) in projects.iter().enumerate() {
+            let n = text.split_inclusive('\n').count();
+            let mut l = (seed + fi) % step;
+            while l < n {
+                slice.push((fi, l));
+                l += step;
+            }
+        }
+        const VALUE_KINDS: [usize; 4] = [8, 10, 5, 9];
+        drive("C01.edited", "the 12 shipped .ctehexml projects with the first number of one line replaced by 0 / 1 / -7 / 100 (every 16th line quick, offset by VERIF_SEED; every 2nd line thorough), written to a directory of their own and converted by collect_hulc_data: whenever the library converts the project, the document the tool prints (Model::as_json) loads back as that very model", |c| {
+            c.check("C01.edited.corpus", projects.len() >= 12 && slice.len() >= 1000, || format!("{} projects, {} lines", projects.len(), slice.len()));
+            let k = c.pick(slice.len());
+            let kind = VALUE_KINDS[c.pick(VALUE_KINDS.len())];
+            let (fi, line) = slice[k];
+            let (name, text) = &projects[fi];
+            let edited = match damage(text, line, kind) {
+                Some(t) => t,
+                None => return,
+            };
+            c.note(format!("{} line {}: {}", name, line + 1, DAMAGE_KINDS[kind]));
+            let dir = tmp_dir(&format!("c01-edited-{}-{}-{}", fi, line, kind));
+            std::fs::write(dir.join("proyecto.ctehexml"), &edited).unwrap();
+            let lib = library(&dir.to_string_lossy(), false);
+            let _ = std::fs::remove_dir_all(&dir);
+            let model = match lib {
+                Ok(m) => m,
+                Err(_) => return, // not a project the library converts
+            };
+            let json = match model.as_json() {
+                Ok(j) => j,
+                Err(e) => {
+                    c.check("C01.edited.document_loads", false, || format!("{} with line {} {}: as_json failed: {}", name, line + 1, DAMAGE_KINDS[kind], e));
+                    return;
+                }
+            };
+            let loaded = Model::from_json(&json);
+            c.check("C01.edited.document_loads", matches!(&loaded, Ok(m) if format!("{:?}", m) == format!("{:?}", model)), || {
+                format!("{} with line {} {} ({:?}): the library converts it, but the exported document {}", name, line + 1, DAMAGE_KINDS[kind], text.split_inclusive('\n').nth(line).unwrap_or("").trim(), match &loaded {
+                    Err(e) => format!("does not load: {}", e),
+                    Ok(_) => "loads as another model".to_string(),
+                })
+            });
+            c.nontrivial(format!("{} {}", name, DAMAGE_KINDS[kind]));
+        });
+    }
+
     // ---- C19: damaged result files (KyGananciasSolares.txt, NewBDL_O.tbl) read through collect_hulc_data -------
     fn read_latin1(p: &Path) -> String {
         std::fs::read(p).unwrap_or_default().iter().map(|b| *b as char).collect()
